@@ -24,55 +24,73 @@ theorem fill_overwrites (etld1 : Bytes → Bytes) (old : Request) (d : DReq) :
     fillFromPool etld1 old d = fillFromPool etld1 default d :=
   fill_overwrites' etld1 old d
 
-/-- `CacheInv` (cache ⊆ graph of `truth`) is preserved by every atomic action of every thread whose
-    local state is well formed (`TInv`: a pending `cachePut idx r` carries `truth idx = some r`). -/
-theorem cacheInv_preserved {R : Type} (env : Env R) (s : State R) (t : Thread R)
-    (hc : CacheInv env s) (ht : TInv env t) :
-    CacheInv env (step env s t).1 ∧ TInv env (step env s t).2 :=
-  ⟨step_cacheInv hc ht, step_tinv ht⟩
+/-- The invariant of the shared state -- `CacheInv` (cache ⊆ graph of `truth`) and `CellInv` (a lazy-compile
+    cell is empty or what compiling ITS rule gives) -- is preserved by every atomic action of every thread
+    whose local state is well formed (`TInv`: a pending `cachePut idx r` carries `truth idx = some r`, a rule
+    at `preparePattern` is the rule of its object), and no action changes a cell that is set. -/
+theorem sinv_preserved {R Re : Type} (env : Env R Re) (s : State R Re) (t : Thread R)
+    (hs : SInv env s) (ht : TInv env t) :
+    SInv env (step env s t).1 ∧ TInv env (step env s t).2 ∧ CellsLe s (step env s t).1 :=
+  ⟨step_sinv hs ht, step_tinv hs.1 ht, step_cellsLe env s t⟩
 
-/-- C13 for one query: from ANY state satisfying `CacheInv` (whatever the cache, the pool and the
-    compile flags hold after earlier queries), a sequentially executed query finishes, answers exactly
-    the stateless `pureAnswer`, and re-establishes the invariant. -/
-theorem c13 {R : Type} (env : Env R) (s : State R) (q : Query) (hc : CacheInv env s) (h0 : s.closed = []) :
+/-- The lazy-compile state cannot leak: under `CellInv`, whatever cell a rule object has reached
+    (`uncompiled`, `compiled re`, `invalid`), what `preparePattern` + `MatchString` answer for a request is
+    `patOK` -- a function of the rule and the request alone. -/
+theorem c13_cell_is_function_of_rule {R Re : Type} (env : Env R Re) (s : State R Re) (ob : Obj) (r : R)
+    (req : Request) (hci : CellInv env s) (hob : env.objRule ob = some r) :
+    (match s.cells ob with
+      | .compiled x => env.accepts x r req
+      | .invalid => false
+      | .uncompiled => env.patOK r req) = env.patOK r req := by
+  cases hc : s.cells ob with
+  | uncompiled => rfl
+  | compiled x => simp [Env.patOK, cell_compiled hci hob hc]
+  | invalid => simp [Env.patOK, cell_invalid hci hob hc]
+
+/-- C13 for one query: from ANY state satisfying the invariant (whatever the cache, the pool and the
+    lazy-compile cells hold after earlier queries), a sequentially executed query finishes without a crash,
+    answers exactly the stateless `pureAnswer`, and re-establishes the invariant. -/
+theorem c13 {R Re : Type} (env : Env R Re) (s : State R Re) (q : Query) (hs : SInv env s) (h0 : s.closed = []) :
     (runQuery env s q).2.pc = .done ∧
-    (runQuery env s q).2.answer env = pureAnswer env q ∧
-    CacheInv env (runQuery env s q).1 ∧ (runQuery env s q).1.closed = [] := by
-  have hg := runQuery_good_eq q hc h0
-  have hd := runQuery_done env s q
-  refine ⟨hd, ?_, hg.1, by rw [runQuery_closed]; exact h0⟩
-  rw [answer_of_good_eq hg.2 hd, runQuery_q]
+    (runQuery env s q).2.answer = pureAnswer env q ∧
+    SInv env (runQuery env s q).1 ∧ (runQuery env s q).1.closed = [] := by
+  have hg := runQuery_good q hs
+  have he := runQuery_goodEq q hs h0
+  refine ⟨hg.2.2, ?_, hg.1, by rw [runQuery_closed]; exact h0⟩
+  rw [answer_of_goodEq hg.2.1.1 he hg.2.2, runQuery_q]
 
 /-- C13 lifted to every history of queries (any length, repeats, DNS and web queries mixed): the i-th
     answer is `pureAnswer` of the i-th query, whatever was asked before. -/
-theorem c13_history {R : Type} (env : Env R) (qs : List Query) :
-    ∀ (s : State R), CacheInv env s → s.closed = [] →
+theorem c13_history {R Re : Type} (env : Env R Re) (qs : List Query) :
+    ∀ (s : State R Re), SInv env s → s.closed = [] →
       (runHistory env s (qs.map HEv.query)).2 = qs.map (pureAnswer env) := by
   induction qs with
   | nil => intro s _ _; rfl
   | cons q rest ih =>
-    intro s hc h0
-    obtain ⟨_, ha, hc', h0'⟩ := c13 env s q hc h0
-    simp only [List.map_cons, runHistory, ha, ih _ hc' h0']
+    intro s hs h0
+    obtain ⟨_, ha, hs', h0'⟩ := c13 env s q hs h0
+    have := ih _ hs' h0'
+    simp only [runHistory] at this ⊢
+    simp only [List.map_cons, runHistoryT, ha, this]
 
 /-- The statement of the property: the answer after any history equals the answer of the same query
     as the FIRST query on a fresh engine (empty cache, empty pool, nothing compiled). -/
-theorem c13_fresh {R : Type} (env : Env R) (qs : List Query) (q : Query) :
-    (runQuery env (runHistory env ({} : State R) (qs.map HEv.query)).1 q).2.answer env =
-      (runQuery env ({} : State R) q).2.answer env := by
-  have hinit : CacheInv env ({} : State R) := by intro idx r h; simp at h
-  have hstate : ∀ (qs : List Query) (s : State R), CacheInv env s → s.closed = [] →
-      CacheInv env (runHistory env s (qs.map HEv.query)).1 ∧
+theorem c13_fresh {R Re : Type} (env : Env R Re) (qs : List Query) (q : Query) :
+    (runQuery env (runHistory env ({} : State R Re) (qs.map HEv.query)).1 q).2.answer =
+      (runQuery env ({} : State R Re) q).2.answer := by
+  have hinit : SInv env ({} : State R Re) := sinv_init env
+  have hstate : ∀ (qs : List Query) (s : State R Re), SInv env s → s.closed = [] →
+      SInv env (runHistory env s (qs.map HEv.query)).1 ∧
         (runHistory env s (qs.map HEv.query)).1.closed = [] := by
     intro qs
     induction qs with
-    | nil => intro s hc h0; exact ⟨hc, h0⟩
+    | nil => intro s hs h0; exact ⟨hs, h0⟩
     | cons q' rest ih =>
-      intro s hc h0
-      obtain ⟨_, _, hc', h0'⟩ := c13 env s q' hc h0
-      simpa [runHistory] using ih _ hc' h0'
-  obtain ⟨hc, h0⟩ := hstate qs {} hinit rfl
-  rw [(c13 env _ q hc h0).2.1, (c13 env _ q hinit rfl).2.1]
+      intro s hs h0
+      obtain ⟨_, _, hs', h0'⟩ := c13 env s q' hs h0
+      simpa [runHistory, runHistoryT] using ih _ hs' h0'
+  obtain ⟨hs, h0⟩ := hstate qs {} hinit rfl
+  rw [(c13 env _ q hs h0).2.1, (c13 env _ q hinit rfl).2.1]
 
 /-- `removeDNSRewriteRules` with the capacity-limited reslice `rules[:i:i]`, on explicit slices: it
     never panics, the heap only GROWS (`h ++ ext`: no existing backing array is written, so the caller's
@@ -93,16 +111,22 @@ example :
     (removeDNSRewriteRulesS (· == 1) false h rules).map (fun p => rules.view p.1) = some [2, 2] ∧
     (removeDNSRewriteRulesS (· == 1) true h rules).map (fun p => rules.view p.1) = some [1, 2] := by decide
 
-/-- Non-vacuity of `c13`/`c13_history`: a concrete engine (two indices, one closed-over `truth`), a
-    history in which the second query finds the cache warm and the pool non-empty. -/
+/-- Non-vacuity of `c13`/`c13_history`: a concrete engine (rules = numbers; 7 compiles and accepts, 8 has an
+    invalid pattern, 9 is a "match anything" pattern; index 10 sits in two shortcut buckets), a history in
+    which the second query finds the cache warm, the pool non-empty and the cells of 7 and 8 set. -/
 example :
-    let env : Env Nat := { truth := fun i => if i == 10 then some 7 else if i == 20 then some 8 else none,
-                           listOf := fun _ => 1, ruleId := id, etld1 := id,
-                           cands := fun _ => [10, 20, 30], mtch := fun r _ => r == 7, resident := [] }
+    let env : Env Nat Nat :=
+      { truth := fun i => if i == 10 then some 7 else if i == 20 then some 8 else if i == 30 then some 9 else none,
+        listOf := fun _ => 1, etld1 := id,
+        cands := fun _ => [(true, 10), (true, 20), (true, 10), (false, 30), (false, 40)], hcands := fun _ => [],
+        basic := fun _ => false, wants := fun _ _ => true, pre := fun _ _ => true,
+        compile := fun r => if r == 7 then .re 1 else if r == 8 then .bad else .any,
+        accepts := fun _ _ _ => true, resident := [8, 9] }
     let d1 : DReq := { hostname := lit "a", clientName := lit "laptop" }
     let d2 : DReq := { hostname := lit "a" }
-    (runHistory env {} [.query (.dns d1), .query (.dns d2)]).2 = [[7], [7]] ∧
-    (runHistory env {} [.query (.dns d1), .query (.dns d2)]).1.cache.length = 2 ∧
-    (runHistory env {} [.query (.dns d1), .query (.dns d2)]).1.pool.length = 1 := by decide
+    let h := runHistory env {} [.query (.dns d1), .query (.dns d2)]
+    h.2 = [([7, 9, 9], []), ([7, 9, 9], [])] ∧ h.1.cache.length = 3 ∧ h.1.pool.length = 1 ∧
+      h.1.cells (.st 10) = .compiled 1 ∧ h.1.cells (.st 20) = .invalid ∧ h.1.cells (.st 30) = .uncompiled ∧
+      h.1.cells (.seq 0) = .invalid := by decide
 
 end UF.C13
